@@ -387,6 +387,7 @@ class PeerConnection:
         self.socket_proto: int = 0
         """Connected socket protocol, either PEER_TRANSPORT_TCP or 
         PEER_TRANSPORT_SCTP."""
+        self._exchange_failed: bool = False
         self.state: int = PEER_CLOSED
         """The current peer state, one of `PEER_*` constants. The peer will 
         go through a transition of CONNECTING - CONNECTED - READY and will not
@@ -420,6 +421,17 @@ class PeerConnection:
                 return
             # the awaited CER/CEA has arrived, the wait for one starts over
             self.reset_connected()
+            self.message_handler(self, msg)
+            # a capabilities exchange that ends in the connection being
+            # closed has failed; whatever else was read along with it is not
+            # to be served
+            self._exchange_failed = self.state in (PEER_CLOSING, PEER_CLOSED)
+            return
+
+        if self._exchange_failed:
+            self.logger.warning(
+                f"capabilities exchange has failed, ignoring message")
+            return
 
         self.message_handler(self, msg)
 
